@@ -68,14 +68,19 @@ Record codeobj := mkco {
   co_stacksize : Z;
   co_nconsts : Z;          (* len(co_consts) *)
   co_nnames : Z;           (* len(co_names) *)
-  co_nlocals : Z;          (* len(co_varnames) *)
+  co_nlocals : Z;          (* valid range of local operands: len(co_varnames); 3.11: nlocalsplus *)
   co_nfree : Z;            (* valid range of free/cell operands: len(cellvars)+len(freevars); 3.11: nlocalsplus *)
   co_firstlineno : Z;
   co_linetable : list Z;   (* co_lnotab / co_linetable bytes *)
   co_nlines : Z;           (* number of lines of the source file *)
   co_exclen : Z;           (* length of co_exceptiontable (3.11), 0 otherwise *)
-  co_chkdepth : bool       (* false only for 3.7 objects containing opcodes for which 3.7's dis.stack_effect
+  co_chkdepth : bool;      (* false only for 3.7 objects containing opcodes for which 3.7's dis.stack_effect
                               is no per-path oracle (END_FINALLY, WITH_CLEANUP_*, POP_EXCEPT) *)
+  co_linked : bool;        (* the object is (inside) the body of an imported erg module that the compiler linked
+                              into this file (a code object named %v_codegen_N); only used by [Known_C14] *)
+  co_entry : Z             (* operand-stack depth at offset 0: 0, except 1 for generator / coroutine code under 3.10
+                              (gen_send_ex pushes the sent value, GEN_START pops it; compile.c stackdepth()) and 3.11
+                              (pushed on resumption after RETURN_GENERATOR, whose dis.stack_effect is 0 there) *)
 }.
 
 (** * Decoding *)
@@ -191,10 +196,10 @@ Definition check_instr (v : pyver) (E : effects) (S : Z) (m : annot) (i : instr)
   end.
 
 (** the verified part: the annotation is inductive and stays within 0 .. stacksize *)
-Definition check_annot (v : pyver) (E : effects) (S : Z) (p : list instr) (m : annot) : bool :=
-  (0 <=? S) &&
+Definition check_annot (v : pyver) (E : effects) (S : Z) (d0 : Z) (p : list instr) (m : annot) : bool :=
+  (0 <=? d0) && (d0 <=? S) &&
   match aget m 0 with
-  | Some (lo, hi) => (lo <=? 0) && (0 <=? hi)
+  | Some (lo, hi) => (lo <=? d0) && (d0 <=? hi)
   | None => false
   end &&
   forallb (fun i => 0 <=? i_off i) p &&
@@ -274,14 +279,14 @@ Definition pos_effect (v : pyver) (E : effects) (i : instr) : Z :=
 Definition depth_cap (v : pyver) (E : effects) (S : Z) (p : list instr) : Z :=
   Z.min S (1 + fold_left (fun a i => a + pos_effect v E i) p 0).
 
-Definition compute_annot (v : pyver) (E : effects) (S : Z) (p : list instr) : ares :=
-  let cap := depth_cap v E S p in
-  if cap <? 0 then ABad 0 0
-  else outer p (Z.to_nat (2 * cap + 3)) v E cap p (aset (PositiveMap.empty _) 0 (0, 0)).
+Definition compute_annot (v : pyver) (E : effects) (S : Z) (d0 : Z) (p : list instr) : ares :=
+  let cap := Z.min S (d0 + depth_cap v E S p) in
+  if (cap <? d0) || (d0 <? 0) then ABad 0 d0
+  else outer p (Z.to_nat (2 * cap + 3)) v E cap p (aset (PositiveMap.empty _) 0 (d0, d0)).
 
-Definition depth_ok (v : pyver) (E : effects) (S : Z) (p : list instr) : bool :=
-  match compute_annot v E S p with
-  | ADone m => check_annot v E S p m
+Definition depth_ok (v : pyver) (E : effects) (S : Z) (d0 : Z) (p : list instr) : bool :=
+  match compute_annot v E S d0 p with
+  | ADone m => check_annot v E S d0 p m
   | _ => false
   end.
 
@@ -349,12 +354,14 @@ Fixpoint lt310 (tab : list Z) (ar_end cl addrq : Z) : lineres :=
     else lt310 r en cl' addrq
   end.
 
-(** 3.11: scan_varint: 6-bit groups, bit 6 = continuation (no limit check in C: [None]) *)
+(** 3.11: scan_varint: 6-bit groups, bit 6 = continuation (no limit check in C: [None]); unsigned int arithmetic *)
 Fixpoint scan_varint (bs : list Z) (shift acc : Z) : option Z :=
   match bs with
   | [] => None
   | b :: r =>
-    let acc' := acc + (b mod 64) * 2 ^ shift in
+    if 32 <=? shift then None          (* shift of a 32-bit unsigned by >= 32: undefined in C *)
+    else
+    let acc' := (acc + (b mod 64) * 2 ^ shift) mod 4294967296 in
     if Z.testbit b 6 then scan_varint r (shift + 6) acc' else Some acc'
   end.
 
@@ -402,7 +409,7 @@ Definition valid_nolines (v : pyver) (E : effects) (c : codeobj) : bool :=
   | Some p =>
     match p with [] => false | _ => true end &&
     (co_exclen c =? 0) &&
-    (if co_chkdepth c then depth_ok v E (co_stacksize c) p else true) &&
+    (if co_chkdepth c then depth_ok v E (co_stacksize c) (co_entry c) p else true) &&
     jumps_ok v (Zlen (co_code c)) p &&
     index_ok v c p
   end.
@@ -414,6 +421,9 @@ Definition valid_code (v : pyver) (E : effects) (c : codeobj) : bool :=
   | Some p => lines_ok v c p
   end.
 
-(** * Known finding class (see known/C14.json): the compiler writes the <= 3.9 co_lnotab byte pairs for every
-    target, so no 3.10 / 3.11 line table is meaningful *)
-Definition Known_C14 (v : pyver) : bool := 310 <=? pv_id v.
+(** * Known finding classes (see known/C14.json); both concern the line clause only
+    - C14-linetable-format-310: the compiler writes co_lnotab byte pairs for every target, so no 3.10 / 3.11 line
+      table is meaningful;
+    - C14-linked-module-filename: code of an imported erg module is linked into the importing file's code object
+      with the importer's co_filename but the imported file's line numbers. *)
+Definition Known_C14 (v : pyver) (c : codeobj) : bool := (310 <=? pv_id v) || co_linked c.
